@@ -52,7 +52,6 @@ package lib
 //@   ensures result.0 >= 0 && len(b.B) == old(len(b.B)) + result.0 && cap(b.B) >= len(b.B)
 //@   ensures result.1 != nil || result.0 > 0 || true
 
-
 // lib.Map[K,V]: a Go map behind an RWMutex. The methods are translated in place at their call
 // sites (the lock operations are no-ops of the sequential layer; mutual exclusion is A-ATOMIC).
 //@ func (*Map[K, V]).Load
